@@ -149,6 +149,7 @@ type Op struct {
 	Sub      string   `json:"sub,omitempty"`
 	Mode     uint32   `json:"mode,omitempty"`
 	Svc      string   `json:"svc,omitempty"`
+	MapNS    bool     `json:"mapns,omitempty"` // a Browse of the map namespace: compared with Model map_browse, not part of the model history
 }
 
 type Outcome struct {
@@ -394,9 +395,10 @@ func (c *rawClient) call(req ua.Request, tok *ua.NodeID, timeout time.Duration) 
 // the server under test
 
 type sut struct {
-	srv *server.Server
-	url string
-	ns  *server.NodeNameSpace // generated nodes live here (namespace 1)
+	srv   *server.Server
+	url   string
+	ns    *server.NodeNameSpace // generated nodes live here (namespace 1)
+	mapns *server.MapNamespace  // an added namespace of the other kind (namespace 2): keys alpha, beta, gamma
 }
 
 func freePort() int {
@@ -426,10 +428,14 @@ func startServer(opts ...server.Option) *sut {
 	opts = append(opts, server.EndPoint("localhost", port))
 	s := server.New(opts...)
 	ns := server.NewNodeNameSpace(s, "urn:verif:nodes")
+	mapns := server.NewMapNamespace(s, "urn:verif:map")
+	mapns.Data["alpha"] = 1
+	mapns.Data["beta"] = "x"
+	mapns.Data["gamma"] = 2.5
 	if err := s.Start(context.Background()); err != nil {
 		panic(err)
 	}
-	return &sut{srv: s, url: fmt.Sprintf("opc.tcp://localhost:%d", port), ns: ns}
+	return &sut{srv: s, url: fmt.Sprintf("opc.tcp://localhost:%d", port), ns: ns, mapns: mapns}
 }
 
 type tablesJ struct {
@@ -652,6 +658,14 @@ func (r *runner) exec(op Op) (map[string]any, Outcome) {
 				IncludeSubtypes: b.Subtypes, NodeClassMask: b.Mask, ResultMask: uint32(ua.BrowseResultMaskAll)})
 		}
 		ev["browses"] = op.Browses
+		if op.MapNS {
+			ev["mapns"] = true
+			var ints []uint32
+			for _, b := range op.Browses {
+				ints = append(ints, parseNID(b.Node).IntID())
+			}
+			ev["node_ints"] = ints
+		}
 		resp, err := c.call(req, tok, 8*time.Second)
 		if err != nil {
 			return ev, fail(err)
@@ -897,6 +911,18 @@ func (s *sut) runHistory(h History, dumpAll bool) (dead bool) {
 		}
 	}
 	init["nodes"] = nodes
+	if s.mapns != nil {
+		var mk []NID
+		var names []string
+		for k := range s.mapns.Data {
+			names = append(names, k)
+		}
+		sort.Strings(names)
+		for _, k := range names {
+			mk = append(mk, nidOf(ua.NewStringNodeID(s.mapns.ID(), k)))
+		}
+		init["map"] = map[string]any{"ns": s.mapns.ID(), "objects": nidOf(ua.NewNumericNodeID(s.mapns.ID(), 85)), "keys": mk}
+	}
 	init["tables"] = s.settle(nil)
 	emit(init)
 
